@@ -128,6 +128,7 @@ align 16
 mk_global  pq_gen_avx, function
 func(pq_gen_avx)
 	FUNC_SAVE
+	movsxd	vec, DWORD(vec)	;vects is a signed int
 	sub	vec, 3			;Keep as offset to last source
 	jng	return_fail		;Must have at least 2 sources
 	cmp	len, 0
